@@ -417,6 +417,8 @@ def generate(seed, profile_name, faulty=None):
         if op.get('resend') and op['type'] == 'StorySend' and st.get('merge', True) and not st.get('corrupt'):
             # the same message id again, for the same story, with other content
             op2 = {'type': 'StorySend', 'ro_id': op['ro_id'], 'shapes': dict(op.get('shapes', {})), 'mid': op['mid'], 'env': op['env']}
+            if op.get('foreign'):
+                op2['foreign'] = True
             sid = next(x[2] for x in op['payload'][0][4] if x[0] == 'storyID')
             g.fill_storysend(op2, sid, g.story_entry(sid))
             steps.append({'k': 'msg', 'op': op2, 'knobs': draw_knobs(R, plain), 'path': R.choice(['str', 'bytes', 'file', 's3']),
